@@ -271,6 +271,8 @@ func ruleNilOnSuccess(c *report.Ctx) {
 				}
 			}
 			switch b := base.(type) {
+			case *ssa.Parameter:
+				// handled from the call sites below
 			case *ssa.Extract:
 				check(b, in.Block(), nil, b)
 			case *ssa.Phi:
@@ -279,6 +281,54 @@ func ruleNilOnSuccess(c *report.Ctx) {
 						check(ex, b.Block(), b.Block().Preds[i], b)
 					}
 				}
+			}
+		})
+		// a possibly-nil result handed to a module function that dereferences that parameter without testing it
+		an.Instrs(f, func(in ssa.Instruction) {
+			cc := an.CallOf(in)
+			if cc == nil {
+				return
+			}
+			g := cc.StaticCallee()
+			if g == nil || !p.InModule(g) || g.Blocks == nil {
+				return
+			}
+			for ai, a := range cc.Args {
+				ex, ok := a.(*ssa.Extract)
+				if !ok || !isPtrT(ex.Type()) {
+					continue
+				}
+				call, ok := ex.Tuple.(*ssa.Call)
+				if !ok {
+					continue
+				}
+				isNN, who := calleeNN(call, ex.Index)
+				if !isNN || ai >= len(g.Params) {
+					continue
+				}
+				if _, isEx := excepted[who]; isEx {
+					continue
+				}
+				if p.ValState(ex, in.Block(), nil) == an.NonNil {
+					continue
+				}
+				// does g dereference the parameter where it is not known non-nil?
+				par := g.Params[ai]
+				var deref ssa.Instruction
+				an.Instrs(g, func(gi ssa.Instruction) {
+					if deref != nil {
+						return
+					}
+					if fa, ok := gi.(*ssa.FieldAddr); ok && fa.X == ssa.Value(par) && p.ValState(par, gi.Block(), nil) != an.NonNil {
+						deref = gi
+					}
+				})
+				if deref == nil {
+					continue
+				}
+				n++
+				key := sk(f) + ":passes:" + calleeName(p, call) + "#" + itoa(ex.Index) + "=>" + sk(g)
+				c.Fail(key, calleeName(p, call)+" can return a nil pointer with a nil error ("+who+"); the result is passed untested to "+sk(g)+", which dereferences it at "+p.InstrPos(deref)+": a missing record / vanished block panics", posOf(c, in))
 			}
 		})
 	}
